@@ -53,8 +53,8 @@ class Case(object):
         steps = []
         for _ in range(rng.randrange(12, 41)):
             c = rng.randrange(len(self.configs))
-            op = rng.choices(['create', 'save', 'get', 'meta', 'list', 'close', 'exit', 'save_foreign_rec'],
-                             [6, 8, 3, 2, 3, 1, 1, 1])[0]
+            op = rng.choices(['create', 'save', 'get', 'meta', 'list', 'close', 'exit', 'save_foreign_rec', 'toggle_read_only', 'toggle_transient', 'use_copy'],
+                             [6, 8, 3, 2, 3, 1, 1, 1, 0.5, 0.4, 0.5])[0]
             steps.append((op, c, rng.randrange(1000)))
         self.steps = steps
         self.witness['configs'] = self.configs
@@ -178,6 +178,21 @@ class Case(object):
                         c.get_recording_metadata(saved_ids[r % len(saved_ids)][1])
                     elif op == 'list':
                         list(c.iter_recording_ids(CATS[r % len(CATS)], limit=[None, 1, 3][r % 3]))
+                    elif op == 'toggle_read_only':
+                        # the public attributes of a long-lived cassette are changed after construction ("freeze" a writer, open a reader for writing)
+                        c.read_only = not c.read_only
+                        cfg['read_only'] = c.read_only
+                        ctx.count('attribute_toggles')
+                    elif op == 'toggle_transient':
+                        c.transient = not c.transient
+                        cfg['transient'] = c.transient
+                        ctx.count('attribute_toggles')
+                    elif op == 'use_copy':
+                        # the cassette object is (shallow) copied, e.g. together with an object that holds it; the copy is used from now on
+                        import copy as _copy
+                        with fake.owner(cfg['tag']):      # (a copy that builds its own storage client is still this cassette's)
+                            cass[ci] = c = _copy.copy(c)
+                        ctx.count('cassette_copies')
                     elif op == 'close':
                         c.close()
                     elif op == 'exit':
